@@ -126,7 +126,11 @@ pub fn run(ctx: &Ctx) {
         .map(|(c, o, sname, sbytes)| {
             let sig = format!("deep:{o}:{c}:{sname}");
             let mut r = TripleResult { sig, runs: 0, deep_runs: 0, safe_max: 0, crash_at: None, infra: None };
-            for &d in &rungs {
+            for &rung in &rungs {
+                // seeded jitter: a depth between this rung and the next one (up to +12 %), different per triple and seed
+                let mut h = std::collections::hash_map::DefaultHasher::new();
+                std::hash::Hash::hash(&(ctx.seed, *c, *o, *sname, rung), &mut h);
+                let d = rung + (std::hash::Hasher::finish(&h) as usize) % (rung / 8).max(1);
                 r.runs += 1;
                 if d >= 256 {
                     r.deep_runs += 1;
